@@ -51,6 +51,8 @@ def norm(s):
 def tags_for_failure(gen_text, failure, unit_props, ftags=None):
     """property tags of a failed clause: nearest `// [Cxx,..]` comment above the clause inside the
     same function, else the `[..]` tag on the fn's contract, else all properties of the unit."""
+    if failure.get("tags"):
+        return list(failure["tags"])
     lines = gen_text.split("\n")
     m = re.search(r"-->\s*\S+?:(\d+):\d+", failure["text"])
     idx = vrun.fn_index(gen_text)
